@@ -236,7 +236,7 @@ impl BuildJob<'_> {
             tmp_base_name.push(".redo.tmp");
             df.do_dir.join(tmp_base_name)
         };
-        helpers::unlink(&tmp_name).map_err(RedoError::opaque_error)?;
+        remove_tmp(&tmp_name).map_err(RedoError::opaque_error)?;
         let out_file = tempfile::tempfile().map_err(RedoError::opaque_error)?;
         helpers::close_on_exec(out_file.as_raw_fd(), true).map_err(RedoError::opaque_error)?;
         // this will run in the dofile's directory, so use only basenames here
@@ -696,7 +696,10 @@ impl BuildJob<'_> {
         }
         // rv might have changed up above
         if rv != EXIT_SUCCESS {
-            helpers::unlink(tmp_name).expect("failed to remove temporary output file");
+            if let Err(e) = remove_tmp(tmp_name) {
+                log_err!("{:?}: remove {:?}: {}\n", t, tmp_name, e);
+                rv = EXIT_BUILD_JOB_ERROR;
+            }
             if let Err(e) = sf.set_failed(ptx.state().env()) {
                 log_err!("{:?}: set failed: {}", t, e);
                 rv = EXIT_BUILD_JOB_ERROR;
@@ -1050,6 +1053,23 @@ where
                 next_bg = bg_stream.next();
             }
         }
+    }
+}
+
+/// Removes a temporary output file ($3), whatever the script made of it.
+///
+/// A script may have created a directory there (`mkdir "$3"`) and then failed, or have
+/// been killed after doing so: plain unlink() cannot remove that, and treating it as
+/// fatal either aborted redo (while recording the failed job) or kept the target from ever
+/// being built again (while cleaning up before the next attempt).
+fn remove_tmp(path: &Path) -> io::Result<()> {
+    match helpers::unlink(path) {
+        Ok(()) => Ok(()),
+        Err(Errno::EISDIR) | Err(Errno::EPERM) => match fs::remove_dir_all(path) {
+            Err(e) if e.kind() != io::ErrorKind::NotFound => Err(e),
+            _ => Ok(()),
+        },
+        Err(e) => Err(io::Error::from_raw_os_error(e as i32)),
     }
 }
 
